@@ -5,12 +5,14 @@
 From PowHsm Require Import Model.SignerAuth.
 From PowHsm Require Import Proofs.C01.
 From PowHsm Require Import Proofs.C17.
+From PowHsm Require Import Gen.Src.
+From PowHsm Require Import Proofs.SrcEquivAdmin.
 Open Scope N_scope.
 
 (* the text to be signed is RSK_powHSM_signer_<hash>_iteration_<n> *)
 Theorem C17_msg_spec :
   forall (h : str) (n : Z),
-         auth_msg h n = s "RSK_powHSM_signer_" ++ h ++ s "_iteration_" ++ dec_Z n.
+         auth_msg h n = (s "RSK_powHSM_signer_" ++ h ++ s "_iteration_" ++ dec_Z n)%list.
 Proof. exact (@msg_spec). Qed.
 
 (* different signer versions never share a text *)
@@ -24,7 +26,7 @@ Proof. exact (@msg_injective_hex). Qed.
 (* Ethereum personal-message wrapping: 0x19 'Ethereum Signed Message:' newline, decimal length, text *)
 Theorem C17_eth_wrap_spec :
   forall m : str,
-         eth_message m = [25] ++ s "Ethereum Signed Message:" ++ [10] ++ dec_N (nlen m) ++ m.
+         eth_message m = ([25] ++ s "Ethereum Signed Message:" ++ [10] ++ dec_N (nlen m) ++ m)%list.
 Proof. exact (@eth_wrap_spec). Qed.
 
 (* the wrapping is injective *)
@@ -165,14 +167,75 @@ Theorem C17_authorize_run_loaded :
            (0 <= sa_iteration a < 65536)%Z /\
            authorize_run a w = authorize_signer hb (sa_iteration a) bs w /\
            apdus (snd (authorize_run a w)) =
-           apdus w ++
-           ver_apdu hb (sa_iteration a)
-           :: match next_answer w with
-              | Data _ =>
-                  map sig_apdu
-                    (firstn (Nat.min (S (lead bs (tl (script w)))) (Datatypes.length bs)) bs)
-              | _ => []
-              end /\ fst (authorize_run a w) <> Ok false.
+           (apdus w ++
+            ver_apdu hb (sa_iteration a)
+            :: match next_answer w with
+               | Data _ =>
+                   map sig_apdu
+                     (firstn (Nat.min (S (lead bs (tl (script w)))) (Datatypes.length bs)) bs)
+               | _ => []
+               end)%list /\ fst (authorize_run a w) <> Ok false.
 Proof. exact (@authorize_run_loaded). Qed.
+
+(* TIE BY TRANSLATION: SignerVersion.__init__ of admin/signer_authorization.py, as regenerated from the source text on this run, accepts and canonicalises exactly as the model (hash: 32 bytes of hex, stored in canonical form; iteration: int or int()-parsed string within 0..65535), for every pair of JSON values and every behaviour of the int() oracle *)
+Theorem C17_source_signer_version_is_model :
+  forall (oracle : str -> Z -> option Z) (hash iteration : json),
+         src_SignerVersion____init__ oracle (VObj "SignerVersion" []) (of_json hash)
+           (of_json iteration) =
+         match signer_version (py_int_of oracle) hash iteration with
+         | Some (h, z) => POk (sv_obj h z)
+         | None => PRaise ValueError
+         end.
+Proof. exact (@src_signer_version_ok). Qed.
+
+(* the message text built by the source is RSK_powHSM_signer_<hash>_iteration_<decimal> *)
+Theorem C17_source_msg_is_model :
+  forall (h : str) (z : Z), src_SignerVersion__msg (sv_obj h z) = POk (VStr (auth_msg h z)).
+Proof. exact (@src_signer_msg_ok). Qed.
+
+(* and its Ethereum wrapping, as translated from admin/ledger_utils.py, is the model's *)
+Theorem C17_source_authorization_msg_is_model :
+  forall (h : str) (z : Z),
+         ascii_str h = true ->
+         src_SignerVersion__get_authorization_msg (sv_obj h z) =
+         POk (VBytes (eth_message (auth_msg h z))).
+Proof. exact (@src_get_authorization_msg_ok). Qed.
+
+(* encode_eth_message of the source on any ASCII text *)
+Theorem C17_source_encode_eth_message :
+  forall m : str,
+         ascii_str m = true ->
+         src_admin_ledger_utils__encode_eth_message (VStr m) = POk (VBytes (eth_message m)).
+Proof. exact (@src_encode_eth_message_ok). Qed.
+
+(* text that is not ASCII is refused (UnicodeEncodeError, a ValueError), never wrapped *)
+Theorem C17_source_encode_eth_message_non_ascii :
+  forall m : str,
+         ascii_str m = false ->
+         src_admin_ledger_utils__encode_eth_message (VStr m) = PRaise ValueError.
+Proof. exact (@src_encode_eth_message_non_ascii). Qed.
+
+(* hex_or_decimal_string_to_int of the source: base 16 exactly for strings starting 0x, base 10 otherwise *)
+Theorem C17_source_hex_or_decimal :
+  forall (oracle : str -> Z -> option Z) (x : str),
+         src_admin_utils__hex_or_decimal_string_to_int oracle (VStr x) =
+         match py_int_of oracle x with
+         | Some z => POk (VInt z)
+         | None => PRaise ValueError
+         end.
+Proof. exact (@src_hex_or_decimal_ok). Qed.
+
+(* what SignerVersion.to_dict of the source writes *)
+Theorem C17_source_to_dict :
+  forall (h : str) (z : Z),
+         src_SignerVersion__to_dict (sv_obj h z) =
+         POk (VDict [(s "hash", VStr h); (s "iteration", VInt z)]).
+Proof. exact (@src_signer_to_dict_ok). Qed.
+
+(* the accepted hash text is always ASCII, so the wrapping above applies to every accepted version *)
+Theorem C17_signer_version_hash_ascii :
+  forall (pyint : str -> option Z) (hash iteration : json) (h : str) (z : Z),
+         signer_version pyint hash iteration = Some (h, z) -> ascii_str h = true.
+Proof. exact (@signer_version_hash_ascii). Qed.
 
 Example C17_nonvacuous : True. Proof. exact I. Qed. (* vm_compute examples in Proofs/C17.v: ex_after_second (3 signatures, success after the 2nd, exactly 3 APDUs), ex_never (4 APDUs, error), ex_msg, ex_eth, ex_roundtrip, ex_refused_iteration *)
